@@ -63,6 +63,7 @@ func main() {
 			chk.Incomplete(f.name, "skipped by C02_ONLY")
 		}
 	}
+	reportMinimal()
 	chk.Finish()
 }
 
@@ -236,18 +237,18 @@ var resident = []struct {
 	alphas       [][]string
 }{
 	{"EDIFACT", "@@@@@@@@", [][]string{{"@", "1", "a", " "}, {"@", "A", "\r", "é"}, {"@", "*", "1", "{"}}},
+	{"X12", "*\r>*\r>", [][]string{{"\r", "A", "@", "1"}, {"\r", ">", "a", " "}, {"*", "A", "é", "1"}}},
 	{"C40", "AAAAAA", [][]string{{"A", "a", "1", "é"}, {"A", "*", "@", "\r"}, {"A", " ", "{", "\x01"}}},
 	{"Text", "aaaaaa", [][]string{{"a", "A", "1", "é"}, {"a", "*", "@", "\r"}}},
-	{"X12", "*\r>*\r>", [][]string{{"*", "A", "a", "1"}, {"\r", ">", "@", "é"}}},
 	{"Base256", "éééé", [][]string{{"é", "A", "1", "\u0080"}, {"é", "a", "@", "*"}}},
 }
 
 func runResident() {
 	for _, r := range resident {
 		for ai, a := range r.alphas {
-			maxL := chk.Pick(8, 10)
-			if r.mode == "EDIFACT" && ai == 0 {
-				maxL = 10
+			maxL := chk.Pick(9, 10)
+			if ai == 0 && (r.mode == "EDIFACT" || r.mode == "X12") {
+				maxL = chk.Pick(10, 11) // the shortest livelock / lost-triplet inputs need ten more characters
 			}
 			jobs := jobsFor(a, 0, maxL, r.prefix, "", constLevel(lvStream), "resident-"+r.mode, 20000)
 			runJobs(fmt.Sprintf("(f) encoder resident in %s (prefix %s) followed by every continuation of length 0..%d over {%s}", r.mode, q(r.prefix), maxL, q(strings.Join(a, ""))), jobs)
@@ -332,15 +333,15 @@ func hintOf(shape int, mm minmax) hints {
 // (no MIN/MAX_SIZE, or no hints at all); if it produced a symbol that the stronger hints admit,
 // the constrained call must produce a symbol as well.
 func fitsCheck(l *mc.Local, sub, t string, h hints, base, res result, baseDesc string) {
-	if !res.refused || res.hang || base.refused || base.hang || base.ncw == 0 {
+	if !res.refused || res.hang || base.refused || base.hang || base.bad || base.ncw == 0 {
 		return
 	}
 	if ok, _ := h.admits(base.sym); !ok {
 		return
 	}
 	l.Count("fits_obligations", 1)
-	chk.Violation("C02/fits-but-refused", fmt.Sprintf("text %s: the call %s returns a %s symbol, which the hints%s admit, but the call with these hints fails: %s", q(t), baseDesc, base.sym, h, clip(res.errText)),
-		rcase{sub, t, q(t), h, lvMatrix})
+	chk.Violation("C02/fits-but-refused", fmt.Sprintf("text %s: the call %s returns a %s symbol, which the hints%s admit, but the call with these hints fails: %s", show(t), baseDesc, base.sym, h, clip(res.errText)),
+		rcase{sub, t, show(t), h, lvMatrix})
 }
 
 func runHints() {
@@ -420,6 +421,9 @@ func encodeSize(l *mc.Local, t string, h hints) int {
 	if err != nil || cw == nil {
 		return 1 << 30
 	}
+	if txt, e := dm.DecodeStream(cw); e != nil || txt != t {
+		return 1 << 30 // a symbol that does not carry the run does not count as "fits"
+	}
 	return len(cw)
 }
 
@@ -494,9 +498,9 @@ func runCapacity() {
 			}
 		}
 	}
-	sort.Slice(bases, func(a, b int) bool { // big symbols first: better load balance
+	sort.Slice(bases, func(a, b int) bool { // short runs first: the first report of a key is a small case
 		if bases[a].n != bases[b].n {
-			return bases[a].n > bases[b].n
+			return bases[a].n < bases[b].n
 		}
 		if bases[a].rt != bases[b].rt {
 			return bases[a].rt < bases[b].rt
@@ -562,7 +566,7 @@ func replay() {
 	}
 	verbose = true
 	l := chk.NewLocal()
-	fmt.Printf("replay sub=%s text=%s hints=%s level=%d\n", rc.Sub, q(rc.Text), rc.Hints, rc.Level)
+	fmt.Printf("replay sub=%s text=%s hints=%s level=%d\n", rc.Sub, show(rc.Text), rc.Hints, rc.Level)
 	res := evalCase(l, rc.Sub, rc.Text, rc.Hints, rc.Level)
 	if rc.Hints != (hints{}) {
 		none := evalCase(l, rc.Sub, rc.Text, hints{}, lvStream)
